@@ -46,7 +46,8 @@ def build(prop, mod, fams, tier, seed, merged, wall, nviol, known_matched):
 
 
 def write(prop, ev):
-    d = os.path.join(HOME, 'evidence')
+    # runs against a scratch copy (VERIF_REPO_SRC, seeded-change campaigns) never overwrite the evidence of /repo
+    d = os.path.join(HOME, 'evidence' if not os.environ.get('VERIF_REPO_SRC') else 'evidence-scratch')
     os.makedirs(d, exist_ok=True)
     path = os.path.join(d, prop + '.json')
     tmp = path + '.tmp'
